@@ -1,2 +1,12 @@
 -- Root of the SradModel library: models (import-free), proofs, property theorems.
 import SradModel.Model.Reseq
+import SradModel.Model.ReseqSpec
+import SradModel.Model.Codec
+import SradModel.Model.Host
+import SradModel.Model.HostSpec
+import SradModel.Model.Templ
+import SradModel.Model.TemplSpec
+import SradModel.Props.C09
+import SradModel.Props.C10
+import SradModel.Props.C19
+import SradModel.Props.C18
